@@ -38,11 +38,12 @@ func Generate(seed uint64, prop, tier string) *Plan {
 	r := runner.NewRand(seed)
 	p := &Plan{}
 	n := r.Range(1, 40)
-	big := tier == "thorough" && r.Chance(1, 200)
+	big := r.Chance(1, 40) || tier == "thorough" && r.Chance(1, 15)
 	if big {
-		// populate past one row of the matrix (65536 entries)
-		p.Ops = append(p.Ops, Op{K: "bulk", N: 65536 + r.Range(-2, 300)})
-		n = r.Range(5, 30)
+		// populate up to and past one row of the matrix (65536 entries), so that
+		// removals and registrations happen on both sides of the row boundary
+		p.Ops = append(p.Ops, Op{K: "bulk", N: 65536 + r.Pick(-2, -1, 0, 1, 2, 3, 300)})
+		n = r.Range(3, 16)
 	}
 	for i := 0; i < n; i++ {
 		switch x := r.Intn(20); {
@@ -150,6 +151,15 @@ func Execute(t *testing.T, p *Plan, prop string) (out runner.Outcome) {
 			return
 		}
 		if !full {
+			// large population: spot checks of the oldest, newest and a few other live entries
+			for i, fd := range order {
+				if i < 3 || i >= len(order)-3 || i%9973 == 0 {
+					if rg.Get(fd) != model[fd] {
+						fail("lookup", "after %s: lookup of live descriptor %d (registration #%d of %d) does not return the connection registered under it", where, fd, i, len(order))
+						return
+					}
+				}
+			}
 			return
 		}
 		seen := map[int]int{}
